@@ -149,6 +149,7 @@ fn report_outcome_failure(rep: &mut Report, o: &Outcome, pair: &Pair, kind: JarK
 fn pair_case(rng: &mut Rng, rep: &mut Report, case: u64, workload: &str, pc: &PairCfg, scratch: &Scratch) {
     let planned = gen_pair(rng, pc);
     rep.add("gen.emit_failures", planned.emit_failures as u64);
+    rep.add("gen.big_incompressible_entries(>32KiB)", planned.big_entries as u64);
     let kind = match rng.below(20) { 0..=11 => JarKind::NamedMem, 12 | 13 => JarKind::UnnamedMem, 14..=16 => JarKind::Parsed, 17 | 18 => JarKind::NamedAndParsed, _ => JarKind::File };
     let pair = &planned.pair;
     let (cz, sz) = match (jar::build_zip(&pair.client.raw()), jar::build_zip(&pair.server.raw())) { (Ok(a), Ok(b)) => (a, b), (a, b) => { eprintln!("HARNESS-ERROR cannot build input jar: {:?} {:?}", a.err(), b.err()); std::process::exit(3) } };
@@ -274,6 +275,7 @@ fn main() {
         .assume("not judged: entry order, timestamps, MANIFEST.MF content, which side's version of a shared member or of a differing resource is taken, record components / permitted subclasses of differing classes, interface order");
     if replay.is_none() {
         let g = |k: &str| rep.get(k);
+        meta.oblige("entries of more than 32 KiB of incompressible bytes (classes with a big opaque attribute, resources) in the input jars (>= 40)", g("gen.big_incompressible_entries(>32KiB)") >= 40);
         meta.oblige("client-only classes judged (>= 150)", g("classes.client_only") >= 150);
         meta.oblige("server-only classes judged (>= 100)", g("classes.server_only") >= 100);
         meta.oblige("server-only library classes expected absent (>= 50)", g("entries.server_library_class") >= 50);
